@@ -25,6 +25,11 @@ impl Bolt11Invoice {
     pub uninterp spec fn amount_spec(&self) -> Option<u64>;
     pub uninterp spec fn sig_ok_spec(&self) -> bool;
     pub uninterp spec fn payee_spec(&self) -> PublicKey;
+    /// Display of a parsed invoice: its canonical (lowercase bech32) rendering -- NOT necessarily the
+    /// text it was parsed from (BOLT11 allows all-uppercase)
+    pub uninterp spec fn canonical_text(&self) -> Seq<char>;
+    #[verifier::external_body]
+    pub fn to_string(&self) -> (r: String) ensures r@ == self.canonical_text() { unimplemented!() }
     #[verifier::external_body]
     pub fn payment_hash(&self) -> (r: &Hash) ensures *r == self.hash_spec() { unimplemented!() }
     #[verifier::external_body]
